@@ -1,8 +1,8 @@
 SPECIFICATION Spec
 CONSTANTS
-  N = 2
+  N = 3
   R = 2
-  Part = "all"
+  Part = "peers"
   BugGapsIgnoreTarget = FALSE
 INVARIANTS GapsPartitionTarget CoalesceKeepsCoverage SubtractIsDifference CoveredIffNoGaps RegionPlanExists AllocBounds
 CHECK_DEADLOCK FALSE
